@@ -112,7 +112,7 @@ def layout_form(prefix, tsuf, rsuf, style, target_first, ref_kind, with_cells=Tr
     elif ref_kind == "selrep-nofilter":
         rq = Row("q", f"select_one {R}", "refq", {"label": "from repeat"})
     else:
-        rq = Row("repeat", "begin repeat", "refq", {"label": f"R {R}", "relevant": f"{R} > 0", "repeat_count": f"{R}"},
+        rq = Row("repeat", "begin repeat", "refq", {"label": f"R {R}", "relevant": f"{R} > 0 or ${{last-saved#{tname}}} = 1", "repeat_count": f"{R}"},
                  [Row("q", "text", "inner", {"label": f"in {R}", "default": f"{R}"})])
     if not with_cells:
         rq.cells = {"label": "x", "relevant": f"{R} > 1"}
